@@ -1,0 +1,16 @@
+//go:build verif
+
+// Hooks for the deterministic-simulation harness in /verif. This file is only
+// compiled with -tags verif.
+
+package trafficshape
+
+import "time"
+
+// verifSpinWait is inserted (at check time, see /verif/tools/instrument.py) into
+// the busy-wait loops of FillThrottle and FillThrottleLocked. On a simulated
+// clock a spinning goroutine never lets time advance, so waiting for the drain
+// ticker has to be a sleep: one millisecond of simulated time per iteration.
+func verifSpinWait() {
+	time.Sleep(time.Millisecond)
+}
